@@ -26,8 +26,7 @@ PROPS = {
                       "the verticies hash map is modelled as a derived function of the vertex vector"],
         assumptions=["VertexIndex is int32_t: more than 2^31 vertices ever created is not modelled",
                      "IsReachableFrom(x, x) answers 'direct self-loop' in the code; characterised by the model, judged by the oracle only when a self-loop exists"],
-        partial=["history_refines_statement", "counts_statement", "simple_queries_statement", "expand_statement",
-                 "isReachableFrom_statement", "hasLoop_statement", "topologicalOrder_statement", "loopGroups_statement"],
+        partial=["hasLoop_statement", "topologicalOrder_statement", "loopGroups_statement"],
     ),
     "C09": dict(
         lean_modules=["CCVerif.Properties.C09"],
